@@ -60,6 +60,21 @@ static void sc_init_rects_validate (res_t *res)
     if (!pixman_region32_init_rects (&d, b, n)) check_broken (res, &d, "init_rects"); else { res->digest = reg_digest (&d); if (!pixman_region32_selfcheck (&d)) FAIL (res, "init_rects returned TRUE with a malformed region"); }
     pixman_region32_fini (&d);
 }
+/* K pairs of tall boxes, each pair starting one row below the previous one: no pair can be appended to, or share a band with, an earlier one, so
+ * validation scatters them into K partial regions of two boxes each (all owning heap data) and merges them pairwise over several passes */
+static void sc_init_rects_many_partial_regions (res_t *res)
+{
+    static pixman_box32_t b[64]; int K = 4 + (int)(size_variant % 13);
+    for (int k = 0; k < K; k++) { pixman_box32_t *a = &b[2 * k], *c = &b[2 * k + 1]; a->x1 = 10 * k; a->x2 = a->x1 + 5; c->x1 = 1000 + 10 * k; c->x2 = c->x1 + 5; a->y1 = c->y1 = k; a->y2 = c->y2 = k + 100; }
+    pixman_region32_t d;
+    if (!pixman_region32_init_rects (&d, b, 2 * K)) check_broken (res, &d, "init_rects"); else { res->digest = reg_digest (&d); if (!pixman_region32_selfcheck (&d)) FAIL (res, "init_rects returned TRUE with a malformed region"); }
+    pixman_region32_fini (&d);
+    /* the 16-bit variant through the image clip setter (copy_from_region16 + validate) */
+    static pixman_box16_t b16[64]; for (int i = 0; i < 2 * K; i++) { b16[i].x1 = (int16_t)b[i].x1; b16[i].x2 = (int16_t)b[i].x2; b16[i].y1 = (int16_t)b[i].y1; b16[i].y2 = (int16_t)b[i].y2; }
+    pixman_region16_t d16;
+    if (!pixman_region_init_rects (&d16, b16, 2 * K)) res->reported_failure = 1; else if (!pixman_region_selfcheck (&d16)) FAIL (res, "16-bit init_rects returned TRUE with a malformed region");
+    pixman_region_fini (&d16);
+}
 static void sc_union_rect_growth (res_t *res)
 {
     pixman_region32_t d; pixman_region32_init (&d); int failed = 0;
@@ -241,7 +256,7 @@ static void sc_compute_region (res_t *res)
 typedef struct { const char *name; void (*fn) (res_t *); int draws; } scen_t;   /* draws: contains void drawing calls, which may legitimately skip work */
 static const scen_t scens[] = {
     { "region32_union", sc_union }, { "region32_subtract", sc_subtract }, { "region32_intersect", sc_intersect }, { "region32_inverse", sc_inverse }, { "region32_union_in_place", sc_union_inplace },
-    { "region32_copy", sc_copy }, { "region32_init_rects_validate", sc_init_rects_validate }, { "region32_union_rect_growth", sc_union_rect_growth }, { "region16_subtract", sc_region16 },
+    { "region32_copy", sc_copy }, { "region32_init_rects_validate", sc_init_rects_validate }, { "init_rects_many_partial_regions", sc_init_rects_many_partial_regions }, { "region32_union_rect_growth", sc_union_rect_growth }, { "region16_subtract", sc_region16 },
     { "image_create_bits", sc_create_bits }, { "gradient_create_and_draw", sc_create_gradients, 1 }, { "solid_setters_transform_filter_clip", sc_solid_and_setters, 1 }, { "filter_create_separable", sc_filter_create },
     { "composite_wide_general_path", sc_composite_wide_general, 1 }, { "composite_alpha_map_transform_iterators", sc_composite_alpha_map_and_transform, 1 }, { "glyph_cache_and_composite_glyphs", sc_glyphs, 1 },
     { "composite_trapezoids_triangles", sc_traps, 1 }, { "fill_rectangles_boxes", sc_fill_rectangles, 1 }, { "compute_composite_region", sc_compute_region },
